@@ -868,7 +868,14 @@ func (h evmHarness) Exec(p *simkit.Program) *simkit.Result {
 				ks = append(ks, fmt.Sprintf("%s=%d", k[:12], v))
 			}
 			sort.Strings(ks)
-			s.log.Add("tx %03d status=%d inblock=%v deliveredInc=%d abandon=%v handoffs=%v", i, tx.status, tx.block != nil, tx.deliveredInc, tx.abandonLegit, ks)
+			// (the allowance to abandon a message is only read for a message that was not handed over; when
+			// the failed lookup and the head that completes the window fall on one instant, whether it was
+			// granted depends on which request arrived first - a detail of no consequence once handed over)
+			ab := "-"
+			if len(ks) == 0 {
+				ab = strconv.FormatBool(tx.abandonLegit)
+			}
+			s.log.Add("tx %03d status=%d inblock=%v deliveredInc=%d abandon=%s handoffs=%v", i, tx.status, tx.block != nil, tx.deliveredInc, ab, ks)
 		}
 		s.log.Cut("outcome")
 		s.aborting = true
@@ -1406,6 +1413,14 @@ func (evmHarness) Gen(seed uint64, prop, tier string) *simkit.Program {
 				add("log", 0, level(), int64(r.Intn(64)))
 				add("adv", int64(r.Range(4, 10))*p.Cfg["poll_ms"], 0, 0)
 				add("hold", 0, 0, 0)
+				if r.P(0.5) {
+					// ... and once it takes messages again, a transient lookup fault and a head jump past the
+					// abandonment window: time the watcher itself lost must not count against a message
+					add("adv", int64(r.Range(1, 4))*p.Cfg["poll_ms"], 0, 0)
+					add("fault", 2, int64(r.Pick(2, 0, 1)), 0)
+					add("head", int64(r.Range(61, 150)), int64(r.Range(100, 260)), 0)
+					add("adv", int64(r.Range(1, 4))*p.Cfg["poll_ms"], 0, 0)
+				}
 				add("adv", 2*p.Cfg["poll_ms"], 0, 0)
 			}
 		case 7:
